@@ -243,6 +243,17 @@ func (rs *bodyStream) skipRest() error {
 		}
 
 		strCRLFLen := len(bytestr.StrCRLF)
+		// the handler may have stopped in the middle of a chunk:
+		// drop the rest of it before looking for the next chunk size
+		if rs.chunkLeft > 0 {
+			if err := rs.reader.Skip(rs.chunkLeft); err != nil {
+				return err
+			}
+			rs.chunkLeft = 0
+			if err := utils.SkipCRLF(rs.reader); err != nil {
+				return err
+			}
+		}
 		for {
 			chunkSize, err := utils.ParseChunkSize(rs.reader)
 			if err != nil {
